@@ -28,6 +28,10 @@ def lit(s):
 def rand_str(rng, maxlen=8, alpha=None):
     kind = rng.random()
     n = rng.choice([0, 1, 1, 2, 3, 4, 5, 6, maxlen])
+    if alpha is None and rng.random() < 0.15:
+        # periodic strings (occurrences of a needle overlap)
+        u = rng.choice(["a", "ab", "aab", "\u65e5\u672c", "\xe9\U0001F600", "\xdfa"])
+        return (u * 8)[:max(n, 3)]
     if alpha is None:
         if kind < 0.25:
             alpha = ASCII
@@ -42,6 +46,11 @@ def rand_str(rng, maxlen=8, alpha=None):
 
 def rand_needle(rng, s):
     r = rng.random()
+    if len(s) >= 3 and r < 0.25:
+        # a self-overlapping needle cut out of the haystack, if there is one
+        c = [s[i:j] for i in range(len(s)) for j in range(i + 2, min(len(s), i + 4) + 1) if any(s[i:j][:k] == s[i:j][-k:] for k in range(1, j - i))]
+        if c:
+            return rng.choice(c)
     if s and r < 0.6:
         i = rng.randrange(len(s))
         j = min(len(s), i + rng.choice([1, 1, 2, 3]))
@@ -544,6 +553,28 @@ def run(chk):
         if ord(fill) > 127:
             want = ERR      # only ASCII fill characters are accepted (xformatter.rs: "invalid format spec")
         ladd("format", f"{S}.format({lit(fill + al + str(wd))})", want, inp=(s, fill, al, wd))
+
+    # ---- overlapping occurrences: periodic haystacks, self-overlapping needles (a proper prefix is also a suffix), EVERY
+    # start / end index 0 .. len+1 for the three-argument forms of find, rfind and contains
+    def bordered(n):
+        return any(n[:k] == n[-k:] for k in range(1, len(n)))
+    units = ["a", "ab", "aab", "aba", "\u65e5", "\u65e5\u672c", "\xe9\U0001F600", "\xdf\xdfa", "\U0001F600"]
+    sweeps = []
+    for u in units:
+        for Ln in (3, 4, 5, 6, 7):
+            hs = (u * 8)[:Ln]
+            nds = sorted({hs[i:j] for i in range(Ln) for j in range(i + 2, min(Ln, i + 5) + 1) if bordered(hs[i:j]) and hs.count(hs[i:j][:1]) > 1})
+            for nd in nds:
+                sweeps.append((hs, nd))
+    sweeps = sorted(set(sweeps))
+    sweeps = [("banana", "ana"), ("aaa", "aa"), ("\u65e5\u672c\u65e5\u672c\u65e5", "\u65e5\u672c\u65e5")] + (rng.sample(sweeps, min(len(sweeps), 150)) if quick else sweeps)
+    for hs, nd in sweeps:
+        HS, NDL = lit(hs), lit(nd)
+        for i in range(0, len(hs) + 2):
+            ladd("find_sweep", f"{HS}.find({NDL}, {i})", o_find(hs, nd, i), f"str b.find {cps(hs)} {cps(nd)} {i}", to_model_opt, (hs, nd, i))
+            ladd("rfind_sweep", f"{HS}.rfind({NDL}, {i})", o_rfind(hs, nd, i), f"str b.rfind {cps(hs)} {cps(nd)} {i}", to_model_opt, (hs, nd, i))
+            ladd("contains_sweep", f"{HS}.contains({NDL}, {i})", ERR if i > len(hs) else (hs.find(nd, i) >= 0), inp=(hs, nd, i))
+    chk.coverage["overlap_sweeps"] = len(sweeps)
 
     # ---- literal spellings: quotes, backslashes, braces, fences, raw and formatted strings
     for _ in range(500 if quick else 15000):
